@@ -174,6 +174,9 @@ def run(db: DB, rep: Report) -> None:
         {"where": db.loc(s["node"]), "leaf_positions": ["%s:%s" % c for c in s["ctx"]], "substituted_kinds": s["new"]}
         for s in it.sub_sites]
     rep.extra["interpreter_notes"] = sorted(it.notes)
+    unsound = [n for n in it.notes if n.startswith("UNSOUND")]
+    if unsound:
+        raise AnalysisError("the abstract interpreter could not follow the code soundly: %s" % "; ".join(unsound))
     if n_infix < 30 or n_post < 60:
         raise AnalysisError("abstract interpreter reached only %d infix and %d postfix construction "
                             "sites (floors 30 / 60)" % (n_infix, n_post))
